@@ -220,6 +220,16 @@ def obj_case(row, k, decls, prefix="j"):
     return c
 
 
+def div_case(row, k, prefix="v"):
+    """GenDiv row -> e2e case (class Cell + main body)"""
+    c = prog_case(row, k, prefix=prefix)
+    c["kind"] = "div"
+    c["decls"] = render.render_typedecls({"types": row["types"], "traits": []})
+    c["body"] = [_re.sub(r"\bCell\(", "Cell{N}(", l) for l in c["body"]]
+    c["tags"] = sorted(row.get("feats", []))
+    return c
+
+
 def self_check_ctl(ctx, cases):
     """the rendered function g must parse back to the AST the specification evaluated"""
     reqs = [{"op": "parse", "src": c["decls"].replace("{N}", "")} for c in cases]
